@@ -6,6 +6,8 @@ import (
 	"errors"
 	"fmt"
 	"hash/fnv"
+	"io"
+	"log"
 	"net"
 	"os"
 	"os/exec"
@@ -335,6 +337,11 @@ func runServerScenario(skipVerify bool, secretSpec string, cmds []string, w *os.
 		return "BAD-CASE"
 	}
 	l := newLab(nconn, skipVerify, secrets)
+	if len(cmds)%2 == 1 {
+		// every second scenario with the optional error logger configured (what the server logs is not an
+		// observation; that it behaves the same with and without a logger is)
+		l.srv.ErrorLog = log.New(io.Discard, "", 0)
+	}
 	for _, c := range l.conns {
 		c.closeErr = (len(cmds)+len(secretSpec))%2 == 1
 	}
@@ -869,7 +876,7 @@ func evalServerSub(op string, args []string) string {
 	if op == "nilcfg" && len(args) == 1 {
 		return runNilCfg()
 	}
-	if (op == "dups" || op == "downs" || op == "finishes") && len(args) == 1 {
+	if (op == "dups" || op == "downs" || op == "finishes" || op == "listen") && len(args) == 1 {
 		args = []string{op, args[0], "-"}
 	} else if op != "scenario" || len(args) != 3 {
 		return "UNKNOWN-OP"
@@ -910,11 +917,110 @@ func evalServerInproc(args []string) string {
 	if args[0] == "finishes" {
 		return runFinishes(atoi(args[1]))
 	}
+	if args[0] == "listen" {
+		return runListen(args[1])
+	}
 	skip := args[0] == "1"
 	if args[2] == "-" {
 		return "BAD-CASE"
 	}
 	return runServerScenario(skip, args[1], strings.Split(args[2], ","), nil)
+}
+
+// ---- ListenAndServe end to end: the server opens its own UDP socket on Addr (Network: "-" = the default), a
+// datagram that is not RADIUS is dropped (with an ErrorLog configured), a request sent over the loopback gets an
+// authentic reply from the address it was sent to, Shutdown returns nil and ListenAndServe returns ErrServerShutdown.
+func runListen(network string) (out string) {
+	defer func() {
+		if r := recover(); r != nil {
+			out = fmt.Sprintf("PANIC(%v)", r)
+		}
+	}()
+	if network != "-" && network != "udp" && network != "udp4" {
+		return "BAD-CASE"
+	}
+	secret := []byte("listen-secret")
+	for attempt := 0; ; attempt++ {
+		// a free port: bind, look, release (another process may take it in between: then the attempt is repeated)
+		probe, err := net.ListenPacket("udp4", "127.0.0.1:0")
+		if err != nil {
+			return "HARNESS-listen:" + err.Error()
+		}
+		addr := probe.LocalAddr().String()
+		probe.Close()
+		var starts int32
+		srv := &radius.PacketServer{Addr: addr, SecretSource: radius.StaticSecretSource(secret), ErrorLog: log.New(io.Discard, "", 0),
+			Handler: radius.HandlerFunc(func(w radius.ResponseWriter, r *radius.Request) {
+				atomic.AddInt32(&starts, 1)
+				w.Write(r.Response(radius.CodeAccessAccept))
+			})}
+		if network != "-" {
+			srv.Network = network
+		}
+		ret := make(chan error, 1)
+		go func() { ret <- srv.ListenAndServe() }()
+		client, err := net.Dial("udp4", addr)
+		if err != nil {
+			return "HARNESS-dial:" + err.Error()
+		}
+		reply, early := "none", false
+		buf := make([]byte, 4096)
+		deadline := time.Now().Add(5 * time.Second)
+	send:
+		for id := 0; time.Now().Before(deadline); id++ {
+			select {
+			case <-ret:
+				early = true // (the port was taken, or ListenAndServe gave up)
+				break send
+			default:
+			}
+			client.Write([]byte("not a RADIUS datagram"))
+			req := &radius.Packet{Code: radius.CodeAccessRequest, Identifier: byte(id), Secret: secret}
+			copy(req.Authenticator[:], bytes.Repeat([]byte{byte(id + 1)}, 16))
+			req.Add(1, radius.Attribute("listen"))
+			wire, _ := req.Encode()
+			client.Write(wire)
+			client.SetReadDeadline(time.Now().Add(150 * time.Millisecond))
+			for {
+				n, err := client.Read(buf)
+				if err != nil {
+					continue send // (not listening yet, or slow: ask again with the next identifier)
+				}
+				// (a reply to an EARLIER identifier that arrives late is authentic for that request, not for this one:
+				// read on for this one's)
+				if n >= 2 && buf[1] != byte(id) {
+					continue
+				}
+				reply = fmt.Sprintf("auth=%v:code=%d:id-matches=%v", radius.IsAuthenticResponse(buf[:n], wire, secret), buf[0], n >= 2)
+				break send
+			}
+		}
+		client.Close()
+		if early && attempt < 3 {
+			ctx, cancel := context.WithTimeout(context.Background(), time.Second)
+			srv.Shutdown(ctx)
+			cancel()
+			continue
+		}
+		ctx, cancel := context.WithTimeout(context.Background(), 3*time.Second)
+		down := errName(srv.Shutdown(ctx))
+		cancel()
+		r := "HANG"
+		if early {
+			r = "returned-early"
+		} else {
+			select {
+			case err := <-ret:
+				r = errName(err)
+			case <-time.After(3 * time.Second):
+			}
+		}
+		handled := "no"
+		if atomic.LoadInt32(&starts) >= 1 {
+			handled = "yes"
+		}
+		return fmt.Sprintf("reply=%s handled=%s shutdown=%s ret=%s", reply, handled, down, r)
+	}
 }
 
 // ---- a server without Handler / without SecretSource: Serve and ListenAndServe refuse at once (an error, no
@@ -1157,6 +1263,9 @@ func genC06(g *Gen, tier string, emit func(op string, args ...string)) {
 		emit("dups", itoa(g.Pick(2, 3, 5, 8, 16)))
 	}
 	emit("nilcfg", "-")
+	for _, nw := range []string{"-", "udp", "udp4"} {
+		emit("listen", nw)
+	}
 	for _, k := range []int{2, 3, 8, 16, 32} {
 		emit("finishes", itoa(k))
 	}
